@@ -23,6 +23,11 @@ type reachCursor struct {
 	adjacentIdx int
 	reach       cardinality.Duplex[uint64]
 	ancestor    *reachCursor
+
+	// incomplete is set when an adjacent component was skipped because another branch of the same
+	// DFS had already visited it without its reach being available. The reach of such a cursor is
+	// a subset of the component's true reach and must not be cached.
+	incomplete bool
 }
 
 // Complete merges the reach bitmap of this cursor into its ancestor’s bitmap.
@@ -31,6 +36,10 @@ type reachCursor struct {
 func (s *reachCursor) Complete() {
 	if s.ancestor != nil {
 		s.ancestor.reach.Or(s.reach)
+
+		if s.incomplete {
+			s.ancestor.incomplete = true
+		}
 	}
 }
 
@@ -171,6 +180,11 @@ func (s *ReachabilityCache) componentReachToMemberReachSlice(componentReach card
 // cacheComponentReach stores the reach bitmap for a component in the appropriate
 // cache (inbound or outbound) based on the supplied direction.
 func (s *ReachabilityCache) cacheComponentReach(cursor *reachCursor, direction graph.Direction) {
+	// The root cursor's reach doubles as the visited set of the DFS and is therefore always complete
+	if cursor.incomplete && cursor.ancestor != nil {
+		return
+	}
+
 	switch direction {
 	case graph.DirectionInbound:
 		s.inboundComponentReach.Put(cursor.component, cursor.reach)
@@ -235,6 +249,12 @@ func (s *ReachabilityCache) componentReachDFS(component uint64, direction graph.
 			} else {
 				stack.PushBack(s.newReachCursor(nextAdjacentComponent, direction, nextCursor))
 			}
+		} else if cachedReach, cached := s.cachedComponentReach(nextAdjacentComponent, direction); cached {
+			// Already visited by another branch of this DFS: reuse its cached reach if there is one
+			nextCursor.reach.Or(cachedReach)
+		} else if nextCursor != rootCursor {
+			// Otherwise this cursor's reach is missing everything reachable through the skipped component
+			nextCursor.incomplete = true
 		}
 	}
 
